@@ -9,6 +9,6 @@ def want(case, sig):
 
 
 def run(v, tier, seed):
-    return run_view_check(v, tier, seed, want, [viewpipe.header_results, viewpipe.view_results, viewpipe.gen_view_results],
+    return run_view_check(v, tier, seed, want, [viewpipe.header_results, viewpipe.view_results, viewpipe.gen_view_results, viewpipe.repo_view_results],
                           "fill_message_header / fill_group_header transitions over the header layout catalogue (order, gaps, extra members, refs, uint8..64, counters) x both byte orders",
                           "header fills are steps of the encode script: bytes (whole region incl. margins) and returned header view compared")
